@@ -133,6 +133,15 @@ func runTokensPair(c *engine.Ctx, pc tkPairCase) {
 		close(gate.release)
 		return
 	}
+	// a third key presents the token once both have ended: however the pair went, the token has been spent
+	if nc, reqC := mk(); reqC != nil {
+		if third := fetch(reqC); third.ok {
+			r.Violation("token-reused:after-overlapping-fetches:"+pc.Backend, fmt.Sprintf("after two overlapping fetches had presented the token (first: answered=%v, second: answered=%v) a third key presented it and was answered with credentials: the token was spent and is usable again", a.ok, b.ok), pc)
+			return
+		}
+		_ = nc
+		r.Count("pair:third_presentation_refused", 1)
+	}
 	recs := 0
 	for _, n := range []*world.Node{na, nb} {
 		id, _ := nodeenrollment.KeyIdFromPkix(n.K.Pkix)
@@ -179,6 +188,7 @@ func runTokensPairs(c *engine.Ctx) {
 	engine.ForEach(len(cases), engine.Workers(), func(i int) { runTokensPair(c, cases[i]) })
 	for i := 0; i < c.Pick(6, 30); i++ {
 		runTokensReencodedKey(c, i)
+		runTokensRefusedAuthorization(c, i)
 	}
 	c.R.Require("reencoded:existing_record_unchanged", int64(c.Pick(5, 25)))
 }
@@ -274,4 +284,65 @@ func runTokensReencodedKey(c *engine.Ctx, seq int) {
 		r.Count("reencoded:refused", 1)
 	}
 	r.Count("reencoded:existing_record_unchanged", 1)
+}
+
+// runTokensRefusedAuthorization: a token is presented, accepted and removed, and then the authorization step fails
+// (the server has lost its roots record). Whatever the library does with the token afterwards - the unchanged tree
+// leaves it consumed - with a storage wrapper nothing it puts into storage for that token may carry the creation
+// time in clear: the expiry of a token stays governed by the sealed value.
+func runTokensRefusedAuthorization(c *engine.Ctx, seq int) {
+	r := c.R
+	be := []string{world.Inmem, world.File}[seq%2]
+	var inner nodeenrollment.Storage
+	s, err := world.NewServer(world.ServerCfg{Backend: be, StorageWrap: true, Wrap: func(in nodeenrollment.Storage) nodeenrollment.Storage {
+		inner = in
+		return in
+	}})
+	if err != nil {
+		r.Broken("tokens refused authorization: server world: " + err.Error())
+		return
+	}
+	defer s.Close()
+	id, tok, err := registration.CreateServerLedActivationToken(s.Ctx, s.Store, &types.ServerLedRegistrationRequest{}, s.Opts()...)
+	if err != nil {
+		r.Broken("tokens refused authorization: create token: " + err.Error())
+		return
+	}
+	n, err := world.NewNode(false, "")
+	if err != nil {
+		r.Broken("tokens refused authorization: node: " + err.Error())
+		return
+	}
+	req, err := n.Creds.CreateFetchNodeCredentialsRequest(s.Ctx, nodeenrollment.WithActivationToken(tok))
+	if err != nil {
+		r.Broken("tokens refused authorization: request: " + err.Error())
+		return
+	}
+	if err := inner.Remove(s.Ctx, &types.RootCertificates{Id: string(nodeenrollment.RootsMessageId)}); err != nil {
+		r.Broken("tokens refused authorization: remove roots: " + err.Error())
+		return
+	}
+	var resp *types.FetchNodeCredentialsResponse
+	var ferr error
+	p, stack := engine.Guard(func() { resp, ferr = registration.FetchNodeCredentials(s.Ctx, s.Store, req, s.Opts()...) })
+	tc := map[string]any{"kind": "refused-authorization", "backend": be, "seq": seq}
+	r.Eval(engine.J(tc), true)
+	if p != nil {
+		r.Violation("panic:"+engine.LibraryFrame(stack), fmt.Sprintf("FetchNodeCredentials panicked on a server without roots: %v", p), tc)
+		return
+	}
+	if ferr == nil && resp != nil && len(resp.EncryptedNodeCredentials) > 0 {
+		r.Count("refused-authorization:answered-without-roots(not asserted here)", 1)
+		return
+	}
+	raw := &types.ServerLedActivationToken{Id: id}
+	if err := inner.Load(s.Ctx, raw); err != nil {
+		r.Count("refused-authorization:token_consumed_by_the_failed_attempt", 1)
+		return
+	}
+	if raw.CreationTime != nil || raw.WrappingKeyId == "" {
+		r.Violation("clear-token-creation-time-in-storage:after-refused-fetch", fmt.Sprintf("after a fetch that accepted the token and then failed at the authorization step, the token record is back in storage without sealing although a storage wrapper is configured (wrapping key id %q, clear creation time present: %v): editing that record extends the token", raw.WrappingKeyId, raw.CreationTime != nil), tc)
+		return
+	}
+	r.Count("refused-authorization:token_back_and_sealed", 1)
 }
